@@ -476,7 +476,7 @@ func checkC12CLI(c C12Case, o Outcome) Outcome {
 	ctx := func() string {
 		return fmt.Sprintf("knut balance -v %s --color=false --digits 8 j.knut\n%s\n%s", c.Coms[c.V], text, r.Brief())
 	}
-	if r.Panicked() || r.TimedOut || r.Signaled || r.Exit == 2 {
+	if r.Panicked() || r.TimedOut || r.Signaled {
 		o.Violation = V("cli-crash", "knut crashed or hung\n%s", ctx()).With("level", "cli")
 		return o
 	}
